@@ -130,46 +130,60 @@ structure UrlArgs where
 
 def isAnon (pname : Str) : Bool := Gen.anonPrefix.toList.isPrefixOf pname
 
-/-- loop body for a marker character -/
-def urlMarker (env : FilterEnv) (fenv : FormatEnv) (a : UrlArgs) (st : UrlSt) : Except ErrName UrlSt := do
-  -- end = cidx; if clen: end += clen; clen = 0; ret.append(pattern_out[cidx:end])
+/-- the part of the loop body that picks the argument and turns it into text:
+`pname = params[pidx]; f_out = filters_out[pidx]; f_in = filters[pidx]`; positional for an
+anonymous wildcard (`args[args_idx]; args_idx += 1`), `kw[pname]` otherwise; format; check in
+front of `nxt`.  Returns the piece and the new `args_idx`. -/
+def pickPiece (env : FilterEnv) (fenv : FormatEnv) (a : UrlArgs) (pidx argsIdx : Nat) (nxt : Str) :
+    Except ErrName (Val × Nat) := do
+  let pname ← match a.params[pidx]? with
+    | some n => pure n
+    | none => throw "IndexError"
+  let f ← match a.filters[pidx]? with
+    | some f => pure f
+    | none => throw "IndexError"
+  let (v, k) ← (if isAnon pname then
+      match a.args[argsIdx]? with
+      | some v => pure (v, argsIdx + 1)
+      | none => throw "IndexError"
+    else
+      match dictGet a.kw pname with
+      | some v => pure (v, argsIdx)
+      | none => throw "KeyError" : Except ErrName (Val × Nat))
+  let prt ← fmtOut fenv f v
+  sanity env f prt nxt
+  pure (prt, k)
+
+/-- `end = cidx; if clen: end += clen; clen = 0; ret.append(pattern_out[cidx:end])`, then
+`cidx = end + 1` -/
+def flushRun (a : UrlArgs) (st : UrlSt) : UrlSt :=
   let st : UrlSt :=
     if st.clen != 0 then
       { st with endv := st.cidx + st.clen, clen := 0,
                 ret := st.ret ++ [sliceVal a.patOut st.cidx (st.cidx + st.clen)] }
     else { st with endv := st.cidx }
-  -- cidx = end + 1
-  let st := { st with cidx := st.endv + 1 }
-  -- pname = params[pidx]; f_out = filters_out[pidx]; f_in = filters[pidx]; pidx += 1
-  let pname ← match a.params[st.pidx]? with
-    | some n => pure n
-    | none => throw "IndexError"
-  let f ← match a.filters[st.pidx]? with
-    | some f => pure f
-    | none => throw "IndexError"
-  let st := { st with pidx := st.pidx + 1 }
-  -- positional for anonymous wildcards, by name otherwise
-  let (prt, st) ← (if isAnon pname then
-      match a.args[st.argsIdx]? with
-      | some v => pure (v, { st with argsIdx := st.argsIdx + 1 })
-      | none => throw "IndexError"
-    else
-      match dictGet a.kw pname with
-      | some v => pure (v, st)
-      | none => throw "KeyError" : Except ErrName (Val × UrlSt))
-  let prt ← fmtOut fenv f prt
-  -- nxt_end = pattern_out.find('\r', cidx); nxt = pattern_out[cidx:nxt_end] (to the end if none)
-  sanity env f prt ((a.patOut.drop st.cidx).takeWhile (· != marker))
-  pure { st with ret := st.ret ++ [prt] }
+  { st with cidx := st.endv + 1 }
+
+/-- `nxt_end = pattern_out.find('\r', cidx); nxt = pattern_out[cidx:nxt_end]` (to the end when
+there is no further marker) -/
+def nextRun (a : UrlArgs) (cidx : Nat) : Str := (a.patOut.drop cidx).takeWhile (· != marker)
+
+/-- loop body for a marker character -/
+def urlMarker (env : FilterEnv) (fenv : FormatEnv) (a : UrlArgs) (st : UrlSt) : Except ErrName UrlSt :=
+  let st := flushRun a st
+  match pickPiece env fenv a st.pidx st.argsIdx (nextRun a st.cidx) with
+  | .error e => .error e
+  | .ok (prt, k) => .ok { st with pidx := st.pidx + 1, argsIdx := k, ret := st.ret ++ [prt] }
 
 /-- `for c in pattern_out:` -/
 def urlLoop (env : FilterEnv) (fenv : FormatEnv) (a : UrlArgs) : Str → UrlSt → Except ErrName UrlSt
-  | [], st => pure st
+  | [], st => .ok st
   | c :: cs, st =>
     if c != marker then urlLoop env fenv a cs { st with clen := st.clen + 1 }
-    else do
-      let st' ← urlMarker env fenv a st
-      urlLoop env fenv a cs st'
+    else
+      match urlMarker env fenv a st with
+      | .error e => .error e
+      | .ok st' => urlLoop env fenv a cs st'
 
 /-- `''.join(ret)`: every piece must be a `str` -/
 def joinVals : List Val → Except ErrName Str
@@ -177,14 +191,18 @@ def joinVals : List Val → Except ErrName Str
   | .str s :: r => (s ++ ·) <$> joinVals r
   | .conv _ :: _ => throw "TypeError"
 
+/-- after the loop: `if clen: end = cidx + clen; ret.append(pattern_out[cidx:end])`, then
+`return ''.join(ret)` -/
+def urlFinish (a : UrlArgs) (st : UrlSt) : Except ErrName Str :=
+  joinVals (if st.clen != 0 then st.ret ++ [sliceVal a.patOut st.cidx (st.cidx + st.clen)] else st.ret)
+
 /-- `Route.url(*args, **kw)` -/
 def urlOf (env : FilterEnv) (fenv : FormatEnv) (a : UrlArgs) : Except ErrName Str :=
   -- if not params: return self.pattern_out
-  if a.params.isEmpty then pure a.patOut else do
-  let st ← urlLoop env fenv a a.patOut {}
-  -- if clen: end = cidx + clen; ret.append(pattern_out[cidx:end])
-  let ret := if st.clen != 0 then st.ret ++ [sliceVal a.patOut st.cidx (st.cidx + st.clen)] else st.ret
-  joinVals ret
+  if a.params.isEmpty then .ok a.patOut else
+  match urlLoop env fenv a a.patOut {} with
+  | .error e => .error e
+  | .ok st => urlFinish a st
 
 /-- the filters of a pattern in marker order (`Route.filters`) -/
 def tokFilters : List Sym → List (Option Fid)
@@ -251,5 +269,31 @@ def tokCount : List Sym → Nat
   | [] => 0
   | .lit _ :: p => tokCount p
   | .tok _ :: p => tokCount p + 1
+
+/-- follow-up context of every wildcard: its filter and the literal run after it -/
+def tokCtx : List Sym → List (Option Fid × Str)
+  | [] => []
+  | .lit _ :: p => tokCtx p
+  | .tok f :: p => (f, litRun p) :: tokCtx p
+
+/-! ### the domain the C19 theorems speak about (decidable; the driver evaluates it on every
+rule it is given and reports it) -/
+
+/-- no literal character of the pattern is the marker -/
+def noMarkerLitB (q : List Sym) : Bool :=
+  q.all fun | .lit c => c != marker | .tok _ => true
+
+def nodupB : List Str → Bool
+  | [] => true
+  | a :: l => !l.contains a && nodupB l
+
+/-- what `inDomain` of the router model guarantees for a parsed rule, spelled out: literal text
+free of the marker, one distinct name per wildcard, and (`selFree`) no `rex` selector text in
+the pattern -/
+def urlDomain (r : Route) : Bool :=
+  noMarkerLitB r.symsOut && nodupB r.params && r.params.length == tokCount r.symsOut &&
+    tokFilters r.symsOut == tokFilters r.syms
+
+def selFree (r : Route) : Bool := r.symsOut == r.syms
 
 end Ombott.RouteUrl
